@@ -24,15 +24,16 @@ type Op struct {
 	ID   string `json:"id,omitempty"`
 
 	// http
-	Method    string          `json:"method,omitempty"`
-	Path      string          `json:"path,omitempty"`
-	Req       json.RawMessage `json:"req,omitempty"`    // well-formed JSON body (http) or request (lib)
-	Raw       *string         `json:"raw,omitempty"`    // body that is not well-formed JSON
-	RawB64    string          `json:"rawB64,omitempty"` // body that is not valid UTF-8
-	NoBody    bool            `json:"noBody,omitempty"`
-	CType     string          `json:"contentType,omitempty"` // request Content-Type; empty: application/json; "-": no such header
-	Pad       int             `json:"pad,omitempty"`         // the body is blown up by this many bytes when sent (kept out of the plan text)
-	PadKind   string          `json:"padKind,omitempty"`     // space: JSON whitespace after the value | field: an unknown string field
+	Method    string            `json:"method,omitempty"`
+	Path      string            `json:"path,omitempty"`
+	Req       json.RawMessage   `json:"req,omitempty"`    // well-formed JSON body (http) or request (lib)
+	Raw       *string           `json:"raw,omitempty"`    // body that is not well-formed JSON
+	RawB64    string            `json:"rawB64,omitempty"` // body that is not valid UTF-8
+	NoBody    bool              `json:"noBody,omitempty"`
+	Headers   map[string]string `json:"headers,omitempty"`     // further request headers (what browsers and proxies add)
+	CType     string            `json:"contentType,omitempty"` // request Content-Type; empty: application/json; "-": no such header
+	Pad       int               `json:"pad,omitempty"`         // the body is blown up by this many bytes when sent (kept out of the plan text)
+	PadKind   string            `json:"padKind,omitempty"`     // space: JSON whitespace after the value | field: an unknown string field
 	padded    []byte
 	Transport *Transport `json:"transport,omitempty"`
 
